@@ -1,6 +1,6 @@
 CONSTANTS
-  Lvls = {0, 1, 2, 3, 4, 5}
-  AppLists <- AppLists4
+  Lvls = {0, 1, 3, 5}
+  AppLists <- AppLists3
   NamePool <- Pool6
   Targets <- Targets5
   MaxLoggers = 2
